@@ -50,7 +50,8 @@ def finish(ctx, prop, viol, known, other, runner, coverage, assumptions, level="
         rp = ctx.write_replay([prop, r.get("why"), c["src"] if c else "", r.get("i")],
                               {"property": prop, "rejection": r, "source": c["src"] if c else None, "stmts": c["stmts"] if c else None, "job": c["job"] if c else None,
                                "statement": render.stmt(c["stmts"][r["i"] - 1]) if c and 0 < r.get("i", 0) <= len(c["stmts"]) else None,
-                               "how": "assemble `source` with gosk; compare the bytes of `statement` with the rejection record"})
+                               "related_sources": [byid[x]["src"] for x in r.get("obs", []) if r.get("at") == "rel" and isinstance(x, int) and x in byid][:4],
+                               "how": "assemble `source` with gosk; compare the bytes of `statement` with the rejection record (for a relation: the sources of the related runs are in related_sources)"})
         if shown < 20:
             print("VIOLATION property=%s replay=%s" % (prop, rp))
             log("  ", json.dumps(r)[:400])
